@@ -459,6 +459,7 @@ class Zeroconf(QuietLogger):
     async def async_unregister_service(self, info: ServiceInfo) -> Awaitable:
         """Unregister a service."""
         info.set_server_if_missing()
+        registered_info = self.registry.async_get_info_name(info.key) or info
         self.registry.async_remove(info)
         # If another server uses the same addresses, we do not want to send
         # goodbye packets for the address records
@@ -466,6 +467,7 @@ class Zeroconf(QuietLogger):
         assert info.server_key is not None
         entries = self.registry.async_get_infos_server(info.server_key)
         broadcast_addresses = not bool(entries)
+        self._async_remove_pending_answers(registered_info, broadcast_addresses)
         return asyncio.ensure_future(
             self._async_broadcast_service(info, _UNREGISTER_TIME, 0, broadcast_addresses)
         )
@@ -478,8 +480,23 @@ class Zeroconf(QuietLogger):
         out = DNSOutgoing(_FLAGS_QR_RESPONSE | _FLAGS_AA)
         for info in service_infos:
             self._add_broadcast_answer(out, info, 0)
+            self._async_remove_pending_answers(info, True)
         self.registry.async_remove(service_infos)
         return out
+
+    def _async_remove_pending_answers(self, info: ServiceInfo, include_addresses: bool) -> None:
+        """Drop answers for a withdrawn service that still wait in the multicast queues.
+
+        Answers queued for aggregation (up to 500ms) or delayed to protect the
+        network (1s) before the service was withdrawn would otherwise go out with
+        their full TTL after the goodbye packets and bring the service back to life
+        in every cache on the network.
+        """
+        records = {info.dns_pointer(), info.dns_service(), info.dns_text()}
+        if include_addresses:
+            records.update(info.get_address_and_nsec_records())
+        for queue in (self.out_queue, self.out_delay_queue):
+            queue._remove_answers_from_queue(records)  # pylint: disable=protected-access
 
     async def async_unregister_all_services(self) -> None:
         """Unregister all registered services.
